@@ -64,6 +64,8 @@ def generate_changing_data(
             "Changepoints must be within the range of the data"
             + f" (n={n} and max(changepoints)={max(changepoints)})."
         )
+    if any([changepoint < 0 for changepoint in changepoints]):
+        raise ValueError("Changepoints must be non-negative.")
 
     p = len(means[0])
     x = multivariate_normal.rvs(np.zeros(p), np.eye(p), n, random_state)
@@ -129,6 +131,8 @@ def generate_anomalous_data(
     if any([anomaly[1] <= anomaly[0] for anomaly in anomalies]):
         raise ValueError("The start of an anomaly must be before its end.")
     if any([anomaly[1] > n for anomaly in anomalies]):
+        raise ValueError("Anomalies must be within the range of the data.")
+    if any([anomaly[0] < 0 for anomaly in anomalies]):
         raise ValueError("Anomalies must be within the range of the data.")
 
     p = len(means[0])
